@@ -148,22 +148,10 @@ def build(sym, ver, level, mask, bits):
     return m
 
 
-def gen(ctx):
-    r = ctx.rng
-    dec, meta = [], []
-    reps = 2 if ctx.tier == 'quick' else 20
-    for sym in ('qr', 'mq', 'rm'):
-        cfgs = symgen.configs(sym)
-        for ci, (ver, level) in enumerate(cfgs):
-            if sym == 'qr' and ctx.tier == 'quick' and ver > 8 and (ci + ctx.seed) % 4:
-                continue
-            nbits = symgen.ref(sym).capacity_bits(ver, level)
-            for _ in range(reps if (sym != 'qr' or ver > 3) else reps * 4):
-                bits = random_stream(r, sym, ver, level, nbits)
-                mask = 0 if sym == 'rm' else r.choice(symgen.masks(sym))
-                dec.append('%s.dec %s' % (sym, refqr.to_image_str(build(sym, ver, level, mask, bits))))
-                meta.append((sym, ver, level, mask))
-    # deterministic corpus: one stream per boundary value of every group size, as the FIRST segment, in every symbology
+def boundary_corpus(r):
+    """structurally valid symbols whose FIRST segment holds one boundary value of every group size (999/1000/1023,
+    99/100/127, 9/10/15, 2024/2025/2047, 44/45/63, kanji 0/63/109/7972/7973/8191), every symbology"""
+    dec, meta, streams = [], [], []
     for sym in ('qr', 'mq', 'rm'):
         ref = symgen.ref(sym)
         for (ver, level) in {'qr': [(1, 1), (10, 0), (27, 3)], 'mq': [(2, 1), (3, 0), (4, 3)], 'rm': [(0, 0), (12, 1), (31, 0)]}[sym]:
@@ -196,6 +184,30 @@ def gen(ctx):
                     mask = 0 if sym == 'rm' else r.choice(symgen.masks(sym))
                     dec.append('%s.dec %s' % (sym, refqr.to_image_str(build(sym, ver, level, mask, bits))))
                     meta.append((sym, ver, level, mask))
+                    streams.append(bits)
+    return dec, meta, streams
+
+
+def gen(ctx):
+    r = ctx.rng
+    dec, meta, streams = [], [], []
+    reps = 2 if ctx.tier == 'quick' else 20
+    for sym in ('qr', 'mq', 'rm'):
+        cfgs = symgen.configs(sym)
+        for ci, (ver, level) in enumerate(cfgs):
+            if sym == 'qr' and ctx.tier == 'quick' and ver > 8 and (ci + ctx.seed) % 4:
+                continue
+            nbits = symgen.ref(sym).capacity_bits(ver, level)
+            for _ in range(reps if (sym != 'qr' or ver > 3) else reps * 4):
+                bits = random_stream(r, sym, ver, level, nbits)
+                mask = 0 if sym == 'rm' else r.choice(symgen.masks(sym))
+                dec.append('%s.dec %s' % (sym, refqr.to_image_str(build(sym, ver, level, mask, bits))))
+                meta.append((sym, ver, level, mask))
+                streams.append(bits)
+    d1, m1, s1 = boundary_corpus(r)
+    dec += d1
+    meta += m1
+    streams += s1
     # deterministic corpus 2: the END of the data. A valid segment list leaving exactly k spare bits (k = 0..14),
     # followed by the first k bits of a new segment header of every mode (indicator, count >= 1, data): exercises the
     # end-of-data handling at the mode read, inside the count read and inside the data read of every parser
@@ -231,6 +243,7 @@ def gen(ctx):
                     mask = 0 if sym == 'rm' else r.choice(symgen.masks(sym))
                     dec.append('%s.dec %s' % (sym, refqr.to_image_str(build(sym, ver, level, mask, pre + t))))
                     meta.append((sym, ver, level, mask))
+                    streams.append(pre + t)
     out = ctx.go(dec)
     enc, idx = [], []
     for i, o in enumerate(out):
@@ -240,7 +253,7 @@ def gen(ctx):
             idx.append(i)
     eout = ctx.go(enc)
     dec2 = ['%s.dec %s' % (meta[i][0], o[3:]) if o.startswith('ok ') else 'qr.dec 0,0,0,0,0:-' for i, o in zip(idx, eout)]
-    ctx.c07 = {'meta': meta, 'n': len(dec), 'idx': idx}
+    ctx.c07 = {'meta': meta, 'n': len(dec), 'idx': idx, 'streams': streams}
     return dec + enc + dec2
 
 
@@ -268,6 +281,37 @@ def oracle(ctx, lines, out):
         if bad:
             add('%s:invalid-segment-returned' % sym, i, '%s v%d l%d: decoder returns segment mode %d data %s which is not valid for its mode' % (sym, ver, level, bad[0], bad[1].hex()[:40]))
             continue
+        # the description must account for the WHOLE stream: its own bits are a prefix of the data bits, and what follows
+        # is the end of the data or a terminator - a segment that starts there must not be dropped silently
+        st = ctx.c07.get('streams')
+        if st is not None and i < len(st):
+            bits = st[i]
+            mbits = {'qr': 4, 'rm': 3, 'mq': ver - 1}[sym]
+            own = []
+            for m, sdat in segs:
+                kind = ref.KIND[m]
+                own += bits_of(m, mbits) + bits_of(ref.seg_count(m, sdat), ref.count_bits_kind(kind, ver, level)) + body_bits(sym, kind, sdat)
+            k2 = min(len(own), len(bits))
+            prefix_ok = True
+            if own[:k2] != bits[:k2]:
+                # not a prefix: the QR decoder skips reserved mode indicators, kanji characters with two codes re-encode to
+                # the smaller one, ... - no claim is made about such streams here (re-encodability is checked below)
+                prefix_ok = False
+            rest = bits[len(own):] if prefix_ok else []
+            # a COMPLETE header of a supported data mode with a count >= 1 follows: that segment must not vanish
+            # (an unknown / reserved indicator, or a header cut by the end of the data, ends the parse: lenient, not flagged)
+            if len(rest) >= mbits:
+                mode = int(''.join(map(str, rest[:mbits])), 2) if mbits else 0
+                kind = ref.KIND.get(mode)
+                if kind in symgen.kinds_for(sym, ver):
+                    cb = ref.count_bits_kind(kind, ver, level)
+                    if len(rest) >= mbits + cb:
+                        cntv = int(''.join(map(str, rest[mbits:mbits + cb])), 2)
+                        is_term = (sym == 'rm' and False) or (sym == 'mq' and kind == 'num' and cntv == 0)
+                        if cntv >= 1 and not is_term:
+                            add('%s:segment-dropped' % sym, i, '%s v%d l%d: decoding succeeds with [%s] (%d bits) although the data continues with a complete %s header declaring %d characters: the segment was dropped silently instead of being reported' % (
+                                sym, ver, level, symgen.show_segs(segs), len(own), kind, cntv))
+                            continue
         eo, do = out[n + k], out[n + len(idx) + k]
         if not eo.startswith('ok '):
             total = sum(ref.seg_bits_len_n(ref.KIND[m], ref.seg_count(m, s), ver, level) for m, s in segs)
